@@ -230,7 +230,7 @@ func runCCrash(r *verifsim.Run) {
 			panic(err)
 		}
 		// the daemon restarts: start-up clean-up as runMain performs it
-		if err := deleteTempFiles(dst); err != nil {
+		if err := startupCleanup(dst); err != nil {
 			r.Violate("C10", "C10.cleanup-error", "", "start-up clean-up failed after a crash at step %d: %v", s.Steps, err)
 			s.Abort()
 			return
